@@ -335,17 +335,17 @@ PROPS = {
 
     'C19': {
         'proofs': ['Ww.Proofs.C19'],
-        'gen_sections': ['Facts'],
+        'gen_sections': ['Facts', 'Shutdown', 'pkg/server/server.go'],
         'drivers': [{'name': 'c19'}],
         'reasons': ['C19.'],
         'class_fields': {'shutdown19': ['wait', 'grace', 'signal', 'reqs', 'exitcode'], 'logscan': ['kind']},
         'nontrivial': {'logscan': lambda f: False},
         'rule': "c19 driver: the REAL binary (built from the working tree) proxies to a slow upstream; SIGTERM or SIGINT at a chosen instant; requests arrive before the signal (finishing in time / not finishing), during the wait-before "
-                "period and after it, with upstream durations from 20 ms to beyond the graceful period; wait-before in {0, 400 ms}, graceful in {1.6, 1.8, 2.2 s}; per request completed / refused / cut with timestamps; exit status and time. "
+                "period and after it, with upstream durations from 20 ms to beyond the graceful period; wait-before in {0, 400 ms, 1 s, 1.2 s}, graceful in {1.6, 1.8, 2.2, 2.4, 2.6 s} (the long waits separate 'deadline = graceful' from 'deadline = graceful - wait-before'); per request completed / refused / cut with timestamps; exit status and time. "
                 "Outcomes are compared with the timed model with a 250 ms tolerance (+ the 500 ms idle-connection polling of http.Server.Shutdown). distinct = scenario.",
         'level_text': "PARTIAL. Proved on the timed protocol model, for all period settings with wait < grace and all request arrival / duration patterns: exit no later than the graceful period; requests are accepted exactly until the wait-before "
                       "period is over; an accepted request that can finish before the deadline completes; when all do, the exit is successful and happens at max(wait, last completion); otherwise exit at the deadline with a failure status. "
-                      "The source shape (timeout = graceful - wait-before, Sleep, Shutdown not Close, Fatalf on deadline, signal.Notify) is re-extracted and checked on each run. Signal delivery, http.Server.Shutdown and the scheduler are the runtime (H-RT).",
+                      "The signal goroutine of server.go is re-translated on each run into a list of timed operations in source order; source_timing proves, for all settings, that interpreting that list closes the listeners at wait-before and arms the fatal exit at graceful (the model's parameters); the coarser call-set shape is checked too. Signal delivery, http.Server.Shutdown and the scheduler are the runtime (H-RT).",
         'level_note': "Trusted: Lean kernel; net/http.Server.Shutdown (listeners closed at once, idle polling up to 500 ms: a request finishing < ~650 ms before the deadline may still end in a forced exit - not compared), signal delivery, timers; tolerance 250 ms.",
         'technique': 'Lean 4 proof over a timed protocol model + source-shape facts + timed runs of the real binary under signals',
         'trusted': ["H-RT (net/http Shutdown, signals, timers)"],
